@@ -52,8 +52,8 @@ pub fn res_str(r: Result<String, ()>) -> String {
 fn run_case(ctx: &mut Ctx, dom: &str, a: &[Arg]) {
     match dom {
         "c14" | "align" | "conv" | "conveq" | "conveqc" | "elfty" | "fb" | "magic" | "pstr" => dom_common::run(ctx, dom, a),
-        "mbi" | "mbiwalk" | "mbinull" | "iters" | "elfname" | "mbihuge" | "bigwalk" | "bigelf" | "tageq" => dom_mbi::run(ctx, dom, a),
-        "hdr" | "hdrwalk" | "hdrnull" | "hiters" | "hdrhuge" | "hbigwalk" | "findhuge" | "find" | "cksum" | "verify" => dom_hdr::run(ctx, dom, a),
+        "mbi" | "mbiwalk" | "mbinull" | "mbimis" | "iters" | "elfname" | "mbihuge" | "bigwalk" | "bigelf" | "tageq" => dom_mbi::run(ctx, dom, a),
+        "hdr" | "hdrwalk" | "hdrnull" | "hdrmis" | "hiters" | "hdrhuge" | "hbigwalk" | "findhuge" | "find" | "cksum" | "verify" => dom_hdr::run(ctx, dom, a),
         "cast" => dom_cast::run(ctx, a),
         "gettag" => dom_cast::run_gettag(ctx, a),
         // the constructors and builders exist with the crates' `builder` feature only
